@@ -11,7 +11,7 @@ def run(chk):
     broken = chk.obligations(REGISTRY["C16"])
     runner.build_harness()
     rng = random.Random("C16-%d" % chk.seed)
-    n = 1500 if chk.tier == "quick" else 30000
+    n = chk.size(1500, 30000)
     cases, meta = [], []
     for i in range(n):
         c, g = gen_check.valid_script(chk.seed, i)
